@@ -252,6 +252,23 @@ func (g *gen) checkString(s string) {
 			cands[string(m)] = true
 		}
 	}
+	// full-length strings that differ from the text in ONE position by a character outside the
+	// lower-hex alphabet (or by another digit): a '0' digit replaced by 'g', 'A', '-' … must not compare equal
+	nsub := 0
+	for i := nameLenOf(text) + 1; i < len(text) && nsub < 40; i++ {
+		if text[i] != '0' && i%7 != 0 {
+			continue
+		}
+		for _, c := range []byte("gA-G:/ 0f") {
+			if c == text[i] {
+				continue
+			}
+			m := []byte(text)
+			m[i] = c
+			cands[string(m)] = true
+			nsub++
+		}
+	}
 	cands[text] = true
 	keys := make([]string, 0, len(cands))
 	for k := range cands {
@@ -283,6 +300,13 @@ func (g *gen) checkString(s string) {
 			r.Fail(sig, fmt.Sprintf("%q.HasPrefix(%q)", text, c), wantPre, po, []string{"prefix " + hs + " " + hc})
 		}
 	}
+}
+
+func nameLenOf(text string) int {
+	if i := strings.IndexByte(text, '-'); i >= 0 {
+		return i
+	}
+	return len(text)
 }
 
 func hashRef(name string, data []byte) string {
@@ -359,7 +383,15 @@ func Run(r *hk.Run) {
 	// digests with forced 0x00 / 0xff bytes and ties in the leading bytes (ordering corner cases)
 	for _, name := range []string{"sha1", "sha224", "sha256"} {
 		n := map[string]int{"sha1": 20, "sha224": 28, "sha256": 32}[name]
-		for _, fill := range []byte{0x00, 0xff, 0x09, 0x0a, 0xa0, 0x9f} {
+		for _, pos := range []int{0, 1, n / 2, n - 1} {
+			// a digest byte equal to '-' (0x2d), '"' or '\\': separators of the binary and JSON encodings
+			for _, special := range []byte{0x2d, 0x22, 0x5c} {
+				d := rnd.Bytes(n)
+				d[pos] = special
+				pool = append(pool, name+"-"+hex.EncodeToString(d))
+			}
+		}
+		for _, fill := range []byte{0x00, 0xff, 0x09, 0x0a, 0xa0, 0x9f, 0x2d} {
 			d := make([]byte, n)
 			for i := range d {
 				d[i] = fill
